@@ -1,11 +1,12 @@
 """C07 — context activations nest; scoped overrides read and restore as in sync code."""
 from ..lib import mach, machgen
 
-RULE = ("generated programs with nested and concurrent overrides of the same AsyncScopedValue in several pending tasks, logged "
-        "AsyncContexts, failures at any step, histories of 1-2 computations; distinct = different AST+params; non-trivial = "
+RULE = ("generated programs with nested and concurrent overrides of the same AsyncScopedValue in several pending tasks (trees, and "
+        "DAGs: stored handles of overriding tasks awaited by several overriding tasks), logged AsyncContexts, failures at any step, histories of 1-2 computations; distinct = different AST+params; non-trivial = "
         ">= 1 override block, >= 1 read and >= 2 tasks")
 TRUSTED = ["Python/Gallina emitters of harness/lib/machprog.py"]
-ASSUMPTIONS = ["read clause: tasks awaited by exactly one task (tree edges); for shared tasks no claim (DESIGN.md 5.21)"]
+ASSUMPTIONS = ["read clause: for a task awaited by exactly one task (tree edges) the one innermost enclosing override; for a shared task "
+               "(several pending awaiters) the innermost override along one of the chains of tasks awaiting it (DESIGN.md 5.21)"]
 EXPLANATION = "projection: Read payloads, the global Resume/Pause sequence, Sched markers"
 
 _base = dict(name="overrides", p_ctx_fault=0, p_nonasync=0.0, p_with=0.3, p_override=0.7, p_read=0.2, nvars=2, budget=20,
@@ -76,9 +77,44 @@ _OVERRIDE_IN_HANDLER = {
         [{"op": "read", "x": "r6", "var": 0}, {"op": "return", "e": 0}]],
     "params": {"kinds": {"1": {"prio": ["const", 5, 0]}}},
 }
+# a SHARED pending task (a stored handle awaited by two tasks: a diamond) that holds an override across a suspension: it is
+# started under the override of one awaiter (130) and, after the flush, continued and completed under the override of the
+# other one (120, listed first and so continued first).  Its override saves the value it finds at every resume: when it
+# leaves its block the first awaiter reads its own 120 again, the second one later its own 130, the root 110, and 0 after
+_SHARED_HOLDS_OVERRIDE = {
+    "roots": [
+        [{"op": "let", "h": "h1", "f": {"task": [
+            {"op": "with", "c": {"override": [4, 0, 140]}, "body": [
+                {"op": "yield", "x": "a1", "s": {"new": {"item": [0, 1, {"set": 1}]}}},
+                {"op": "read", "x": "r1", "var": 0}]},
+            {"op": "return", "e": 0}]}},
+         {"op": "with", "c": {"override": [1, 0, 110]}, "body": [
+            {"op": "yield", "x": "x1", "s": {"tuple": [
+                {"new": {"task": [{"op": "with", "c": {"override": [2, 0, 120]}, "body": [
+                    {"op": "yield", "x": "b1", "s": {"new": {"item": [0, 2, {"set": 2}]}}},
+                    {"op": "yield", "x": "b2", "s": {"old": "h1"}},
+                    {"op": "read", "x": "r2", "var": 0}]},
+                    {"op": "return", "e": 0}]}},
+                {"new": {"task": [{"op": "with", "c": {"override": [3, 0, 130]}, "body": [
+                    {"op": "yield", "x": "c1", "s": {"old": "h1"}},
+                    {"op": "read", "x": "r3", "var": 0}]},
+                    {"op": "return", "e": 0}]}}]}},
+            {"op": "read", "x": "r4", "var": 0}]},
+         {"op": "read", "x": "r5", "var": 0},
+         {"op": "return", "e": 0}],
+        [{"op": "read", "x": "r6", "var": 0}, {"op": "return", "e": 0}]],
+    "params": {"kinds": {}},
+}
 _EXTRA = [(1, dict(_base, name="flush-overrides", p_flush_ctx=0.9, p_item=0.6, p_read=0.3, nkinds=2, p_flush_raise=0.25)),
           (1, dict(_base, name="pause-fails", p_nonasync=0.3, p_ctx_fault=0.5, p_with=0.45, p_item=0.6, p_read=0.25))]
 
+# DAG-shaped programs: stored handles of tasks that hold a context across a suspension, awaited by several sibling tasks
+# from inside context blocks of their own (machgen.Gen.diamond); drawn after the other classes
+_DAG = [(3, dict(_base, name="shared-handles", p_diamond=0.35, p_item=0.6, p_read=0.25, p_raise=0.04, p_sync=0.05, nkinds=2)),
+        (1, dict(_base, name="shared-handles-onevar", p_diamond=0.4, nvars=1, p_item=0.6, p_read=0.25, p_item_err=0.15,
+                 p_flush_raise=0.25, p_prio=0.6)),
+        (1, dict(_base, name="shared-handles-logged", p_diamond=0.35, p_override=0.4, p_with=0.35, p_item=0.6))]
+
 mach.install(globals(), "C07", ("EvRead", "EvResume", "EvPause", "EvSched"), ("C07:",), PROFILES, n_quick=300,
-             n_thorough=25000, nontrivial=_nontrivial, level="proof", corpus=[_PAUSE_FAILS_INSIDE_OVERRIDE, _FLUSH_OVERRIDES, _OVERRIDE_IN_HANDLER],
-             extra_gen=mach.extra_profiles(_EXTRA, 70, 5000))
+             n_thorough=25000, nontrivial=_nontrivial, level="proof", corpus=[_PAUSE_FAILS_INSIDE_OVERRIDE, _FLUSH_OVERRIDES, _OVERRIDE_IN_HANDLER, _SHARED_HOLDS_OVERRIDE],
+             extra_gen=mach.extra_all(mach.extra_profiles(_EXTRA, 70, 5000), mach.extra_profiles(_DAG, 80, 6000)))
